@@ -4,7 +4,7 @@
    is loaded with (default, or p again), c = a component of the package, c' = the component as stored. *)
 From Coq Require Import String Ascii List Bool ZArith Arith.
 Import ListNotations.
-Require Import V.Lib.PyStr V.Lib.JTree V.Conf.Model V.Conf.Proofs V.Reload.Model V.Reload.Proofs V.Reload.Obs V.Reload.Idem V.Reload.IdemDoc V.Reload.IdemAll.
+Require Import V.Lib.PyStr V.Lib.JTree V.Conf.Model V.Conf.Proofs V.Reload.Model V.Reload.Proofs V.Reload.Obs V.Reload.Idem V.Reload.IdemDoc V.Reload.IdemAll V.Reload.Dir.
 Open Scope string_scope.
 
 (* Variables: every variable of every component has, in the reloaded document, the value the package gives it on p
@@ -248,6 +248,40 @@ Theorem C07_interpolation_closed : forall ctx s, no_pct s ->
 Proof. intros ctx s H. split; [exact (interp_tol_plain ctx s H)|exact (fill_tol_plain_str ctx s H)]. Qed.
 Print Assumptions C07_interpolation_closed.
 
+(* The directory over time (Dir.v; fourth round).  desc = the stored description, mine = the description of the configuration
+   parsed from the package files for the chosen platform / user variables, reparse = load-and-store of a stored description.
+   An experiment built from the PACKAGE files of a directory with the update requested (experimentFromPackage; elaunch
+   --restart <dir> --platform <other>: is_instance=False, updateInstanceConfiguration=True) leaves ITS description in the
+   directory whatever the directory held before - nothing, the description of an earlier run, of another platform, of other
+   user variables, with more loop iterations, a left-over file of the package ... *)
+Theorem C07_recreate_stores : forall (desc : Type) (mine : desc) reparse d e d',
+  open_experiment desc mine reparse Package true d = Some (e, d') -> e = mine /\ d' = Some mine.
+Proof. exact recreate_stores. Qed.
+Print Assumptions C07_recreate_stores.
+
+(* ... so that, the stored description being a fixed point of load-and-store (C07_document_idempotent), EVERY later sequence
+   of loads of the directory (is_instance True or None, each with or without update) gives that experiment again and leaves
+   the description alone *)
+Theorem C07_recreate_then_reload : forall (desc : Type) (mine : desc) reparse, reparse mine = Some mine ->
+  forall d e d1 modes, Forall not_package modes ->
+  open_experiment desc mine reparse Package true d = Some (e, d1) ->
+  reloads desc mine reparse modes d1 = Some (map (fun _ => e) modes, Some e).
+Proof. exact recreate_then_reload. Qed.
+Print Assumptions C07_recreate_then_reload.
+
+(* a directory without a description gets one when creation is requested, with or without `update` *)
+Theorem C07_create_then_reload : forall (desc : Type) (mine : desc) reparse, reparse mine = Some mine ->
+  forall modes, Forall not_package modes ->
+  reloads desc mine reparse modes (generate desc true false mine None) = Some (map (fun _ => mine) modes, Some mine).
+Proof. exact create_then_reload. Qed.
+Print Assumptions C07_create_then_reload.
+
+(* opening a directory without the update writes nothing (whatever the flavour) *)
+Theorem C07_open_no_update : forall (desc : Type) (mine : desc) reparse fl d e d',
+  open_experiment desc mine reparse fl false d = Some (e, d') -> d' = d.
+Proof. exact open_no_update. Qed.
+Print Assumptions C07_open_no_update.
+
 (* non-vacuity: a two-platform package with a user variable; the flattened document exists, the stage filter is
    exercised (g is defined on the default stage and globally on p), the component is stored with the blueprints folded
    in, the environment is merged, and the hypotheses of the theorems hold of it *)
@@ -301,8 +335,13 @@ Example C07_nonvacuous :
   is_dict (bp_global ex_doc DEF) /\ no_pct "echo-p" /\
   (* the hypotheses of C07_document_idempotent: the flattened document can be flattened again *)
   all_clean ex_doc "p" /\ (forall sk, is_dict (bp_stage ex_doc DEF sk)) /\
-  (exists fd fd2, flatten_raw ex_doc ex_envs ex_user "p" = Some fd /\
-                  flatten_raw (f_doc fd) (JDict [(DEF, JDict (f_envs fd))]) ex_user "p" = Some fd2).
+  ((exists fd fd2, flatten_raw ex_doc ex_envs ex_user "p" = Some fd /\
+                   flatten_raw (f_doc fd) (JDict [(DEF, JDict (f_envs fd))]) ex_user "p" = Some fd2) /\
+   (* the directory: it holds the description 7 of another experiment; built from the package files with update, this one's (1) is
+      stored; three loads (instance / auto, with and without update) give it again *)
+   (exists e d1, open_experiment nat 1 (fun s => Some s) Package true (Some 7) = Some (e, d1) /\ e = 1 /\
+                 Forall not_package [(Instance, true); (Auto, false); (Instance, false)] /\
+                 reloads nat 1 (fun s => Some s) [(Instance, true); (Auto, false); (Instance, false)] d1 = Some ([1; 1; 1], Some 1))).
 Proof.
   split; [|split; [|split; [|split; [|split; [|split; [|split; [|split; [|split; [|split; [|split]]]]]]]]]].
   - eexists. split; [vm_compute; reflexivity|]. vm_compute. repeat split; reflexivity.
@@ -317,5 +356,8 @@ Proof.
   - reflexivity.
   - intros c sk [<-|[]] _ Hs. vm_compute in Hs. injection Hs as <-. unfold clean. vm_compute. repeat constructor.
   - intros sk. eexists. reflexivity.
-  - do 2 eexists. split; vm_compute; reflexivity.
+  - split.
+    + do 2 eexists. split; vm_compute; reflexivity.
+    + exists 1, (Some 1). split; [reflexivity|]. split; [reflexivity|]. split; [|reflexivity].
+      repeat constructor; unfold not_package; simpl; discriminate.
 Qed.
